@@ -815,6 +815,26 @@ def s_history(draw, tier, Ls, cyclic, imag=(False,), orders=(1, 2, 4), max_ops=4
     }
 
 
+def fold_value(tensors, output):
+    """einsum of a long list of tensors folded in left to right (numpy.einsum alone is limited to 52 labels):
+    a label is summed as soon as no later tensor and not the output carries it."""
+    cur_a, cur_l = None, None
+    for n, (a, l) in enumerate(tensors):
+        if cur_a is None:
+            cur_a, cur_l = np.asarray(a), list(l)
+            continue
+        later = set(output)
+        for _, l2 in tensors[n + 1:]:
+            later.update(l2)
+        keep = [x for x in dict.fromkeys(list(cur_l) + list(l)) if x in later]
+        ids = {}
+        cur_a = np.einsum(cur_a, [ids.setdefault(x, len(ids)) for x in cur_l], np.asarray(a),
+                          [ids.setdefault(x, len(ids)) for x in l], [ids.setdefault(x, len(ids)) for x in keep])
+        cur_l = keep
+    ids = {}
+    return np.einsum(cur_a, [ids.setdefault(x, len(ids)) for x in cur_l], [ids.setdefault(x, len(ids)) for x in output])
+
+
 def mps_dense(psi, L):
     return np.asarray(tn_value(psi, [psi.site_ind(i) for i in range(L)]), dtype=np.complex128).reshape(-1)
 
